@@ -259,7 +259,18 @@ func genCase(t *rapid.T) Case {
 		}
 		l := lines[i]
 		sp := bytes.IndexByte(l, ' ')
-		switch rapid.IntRange(0, 9).Draw(t, "mutation") {
+		switch rapid.IntRange(0, 10).Draw(t, "mutation") {
+		case 10: // one extra character (white space, control character) inserted at a structural position
+			x := rapid.SampledFrom([]byte{'\r', '\t', ' ', 0x00, '\v', '\f', '+', '"', 0xA0, 0x7F}).Draw(t, "inserted")
+			pos := rapid.SampledFrom([]int{len(l) - 1, len(l) - 1, sp + 1, sp, 0, (sp + len(l)) / 2}).Draw(t, "insertAt")
+			if x == ' ' && pos == sp+1 || x == ' ' && pos == sp {
+				x = '\t' // a second space is the doubled-separator mutation
+			}
+			if x == '+' && pos == 0 {
+				x = '\r' // whether a plus sign is malformed is not determined by the property
+			}
+			l = append(l[:pos:pos], append([]byte{x}, l[pos:]...)...)
+			c.Muts = append(c.Muts, "inserted-character")
 		case 6: // time stamp outside int32 (the rest of the line would be a fine record)
 			big := rapid.SampledFrom([]string{"2147483648", "-2147483649", "99999999999", "4294967296"}).Draw(t, "bigTS")
 			l = append([]byte(big), l[sp:]...)
@@ -318,7 +329,7 @@ func genCase(t *rapid.T) Case {
 }
 
 var streams = ev.NewCheck("C19", "line-streams",
-	"rapid: 1..12 records, in one case of six 300..1500 short ones (time stamps over int32 incl. negatives and extremes, messages of 1..2000 arbitrary bytes) encoded like the driver (\"%d %X\\n\"); optionally lines damaged by: one hex digit removed, a hex digit or a time-stamp digit replaced by a character from [g-zG-Z_#@!,;], separator removed, newline removed (two lines merge / stream ends unterminated), message removed, time stamp outside int32, damaged time stamp followed by a complete record on the same line, doubled separator, separator inside the data; read from memory, one byte per call, through one bufio.Reader (16, 1024, 4096 bytes) shared by all calls, a single read and 1..4 random partitions, each also with the last bytes delivered together with io.EOF; oracle = line model (split at newline; well formed iff -?[0-9]+ SP ([0-9A-F]{2})+): calling ReadAndConvert until io.EOF yields exactly the records of the well-formed lines in order, at least one error per malformed line, no panic, terminates within len(stream)+3 calls, the same outcome sequence for every fragmentation, and also when two copies of the stream are decoded alternately call by call (no state shared between sources); non-trivial = >= 2 records and (a read boundary inside a line or a well-formed line after a malformed one); distinct by stream bytes",
+	"rapid: 1..12 records, in one case of six 300..1500 short ones (time stamps over int32 incl. negatives and extremes, messages of 1..2000 arbitrary bytes) encoded like the driver (\"%d %X\\n\"); optionally lines damaged by: one hex digit removed, a hex digit or a time-stamp digit replaced by a character from [g-zG-Z_#@!,;], separator removed, newline removed (two lines merge / stream ends unterminated), message removed, time stamp outside int32, damaged time stamp followed by a complete record on the same line, doubled separator, separator inside the data, one white-space / control character inserted before the terminator, next to the separator, at the start or in the middle; read from memory, one byte per call, through one bufio.Reader (16, 1024, 4096 bytes) shared by all calls, a single read and 1..4 random partitions, each also with the last bytes delivered together with io.EOF; oracle = line model (split at newline; well formed iff -?[0-9]+ SP ([0-9A-F]{2})+): calling ReadAndConvert until io.EOF yields exactly the records of the well-formed lines in order, at least one error per malformed line, no panic, terminates within len(stream)+3 calls, the same outcome sequence for every fragmentation, and also when two copies of the stream are decoded alternately call by call (no state shared between sources); non-trivial = >= 2 records and (a read boundary inside a line or a well-formed line after a malformed one); distinct by stream bytes",
 	genCase, run)
 
 func TestPropLineStreams(t *testing.T) { streams.Rapid(t, 2500, 30000) }
